@@ -22,6 +22,9 @@ pub static mut NEXT: usize = 0;
 
 #[cfg(not(kani))]
 pub fn load_values() {
+    // marker for the machinery: a panic only counts as a reproduction after this line was printed
+    // (cargo exits with 101 for a build or usage error as well)
+    println!("REPLAY-ENTERED");
     let s = std::env::var("VERIF_REPLAY_VALUES").unwrap_or_default();
     unsafe {
         VALUES = s
